@@ -3,6 +3,7 @@
 use vstd::prelude::*;
 verus! {
 //@type base/src/formatter/lexer.rs Lexer
+//@include std_text.rs
 pub assume_specification [<char>::is_ascii_digit] (c: &char) -> (r: bool);
 pub assume_specification [<char>::eq_ignore_ascii_case] (c: &char, o: &char) -> (r: bool);
 // chars.parse::<f64>() has no Verus spec: the final parse of the collected digits is read as this total shim
@@ -20,7 +21,10 @@ impl Lexer {
 //@fn base/src/formatter/lexer.rs Lexer::read_next_char
 //@spec
     requires old(self).wf()
-    ensures final(self).wf()
+    ensures final(self).wf(), final(self).len == old(self).len,
+        r.is_some() ==> final(self).position == old(self).position + 1,
+        r.is_none() ==> final(self).position == old(self).position,
+//@rewrite `-> Option<char> {` => `-> (r: Option<char>) {`
 //@end
 //@fn base/src/formatter/lexer.rs Lexer::set_error
 //@spec
@@ -50,6 +54,24 @@ impl Lexer {
             invariant self.wf(), len == self.len, position <= len
             decreases len - position
 //@end
+// [Color n] / [Red]: the bracket text is the user's; `chars[5..]` is a BYTE offset and is reached only behind starts_with("Color")
+// (R: the colour-name table lookup, an iterator adapter with a closure, is read as a total shim; it does not touch `chars`)
+//@fn base/src/formatter/lexer.rs Lexer::consume_color
+//@spec
+    requires old(self).wf()
+    ensures final(self).wf()
+//@strslice chars string
+//@rewrite* `colors.iter().position(|&x| x == lc)` => `shim_color_index(&lc)`
+//@rewrite* `chars.starts_with("Color")` => `text_starts_with(chars.as_str(), "Color")`
+//@rewrite* `.parse::<i32>()` => `.verif_parse_i32()`
+//@loop 1
+            invariant self.wf()
+            decreases self.len - self.position
+//@before? `if !text_starts_with(`
+                proof { reveal_strlit("Color"); }
+//@end
 }
+#[verifier::external_body]
+pub fn shim_color_index(lc: &String) -> Option<usize> { ["black", "white", "red", "green", "blue", "yellow", "magenta"].iter().position(|&x| x == lc) }
 } // verus!
 fn main() {}
